@@ -1,7 +1,7 @@
 CONSTANTS
   Variant = "range_no_star"
   Family = "render"
-  Size = "q"
+  Size = "m"
 INIT Init
 NEXT Next
 CHECK_DEADLOCK FALSE
